@@ -192,4 +192,4 @@ Lemma callf_S prog fuel d f args m :
   end.
 Proof. reflexivity. Qed.
 
-Ltac xstep := repeat (progress (xrw; xcbn; rewrite ?nb2z)).
+Ltac xstep := repeat (progress (xrw; xcbn; rewrite ?nb2z; try change (0 =? 0) with true; try change (1 =? 0) with false)).
